@@ -67,6 +67,9 @@ func GenDist(t *testing.T, r *rand.Rand, prop, tier string, _ *atomic.Int64) *Ca
 	}
 	op := Op{Q: q, Start: w.Start, End: w.End, Step: w.Step, Shards: 1 + r.Intn(3),
 		Eng: Eng{LookbackMs: el, Optim: []string{"default", "none"}[r.Intn(2)], Distributed: true}}
+	if np > 1 && r.Intn(4) == 0 {
+		op.Eng.Grow = true
+	}
 	if r.Intn(5) == 0 {
 		// per-query lookback (QueryOpts.LookbackDelta): the remote engines must use it too
 		op.QLookbackMs = []int64{1000, 7000, 60000, 300000, 600000}[r.Intn(5)]
